@@ -189,14 +189,15 @@ impl Watcher {
 
         let uuid = extended_appointment.uuid();
 
+        // The locator cache lock is taken before charging the slots and held until the appointment is stored, so
+        // two concurrent submissions of the same appointment are charged once (the second is seen as an update).
+        let locator_cache = self.locator_cache.lock().unwrap();
+
+        // Checked under the lock: a concurrent submission of this appointment may have been triggered from the cache.
         if self.responder.has_tracker(uuid) {
             log::info!("Tracker for {uuid} already found in Responder");
             return Err(AddAppointmentFailure::AlreadyTriggered);
         }
-
-        // The locator cache lock is taken before charging the slots and held until the appointment is stored, so
-        // two concurrent submissions of the same appointment are charged once (the second is seen as an update).
-        let locator_cache = self.locator_cache.lock().unwrap();
 
         // TODO: This is not atomic, we update the users slots and THEN add their appointment
         // this means it can happen that we update the slots but some failure happens before we insert their appointment.
